@@ -612,9 +612,9 @@ Module Example.
   Definition s0 : store nat nat :=
     fun l => match l with 0 => 5 | 1 => 7 | 2 => 11 | _ => 0 end.
 
-  Definition run := run_schedule nat Nat.eq_dec nat nat pc pstep.
-  Definition solo := run_solo nat Nat.eq_dec nat nat pc pstep.
-  Definition res := result_of nat nat nat pc pstep.
+  Notation run := (run_schedule nat Nat.eq_dec nat nat pc pstep).
+  Notation solo := (run_solo nat Nat.eq_dec nat nat pc pstep).
+  Notation res := (result_of nat nat nat pc pstep).
   Definition thread_result (c : config nat nat pc) (i : nat) : option nat :=
     match nth_error (fst c) i with Some t => res t | None => None end.
 
@@ -718,7 +718,7 @@ Module Example.
        res (fst (solo fuel (PLoad 11 0) s0)) = Some 23 /\
        snd c 11 = snd (solo fuel (PLoad 11 0) s0) 11).
   Proof.
-    intro c.
+    intro c; subst c.
     destruct (disjoint_footprints_serialisable nat Nat.eq_dec nat nat pc pstep
                 good_ts good_own table_ro s0 good_hyps good_sch 0 (PLoad 10 0)
                 eq_refl) as [Hro H0].
@@ -730,9 +730,11 @@ Module Example.
     assert (count 1 good_sch <= 30) as C1 by (vm_compute; lia).
     split; [| split].
     - intros l Hl. apply Hro. apply Nat.ltb_lt. assumption.
-    - intros fuel Hf. destruct (H0 23 F0 fuel ltac:(lia)) as [R [O _]].
+    - intros fuel Hf. pose proof (Nat.le_trans _ _ _ C0 Hf) as Hc.
+      destruct (H0 23 F0 fuel Hc) as [R [O _]].
       split; [exact R | apply O; reflexivity].
-    - intros fuel Hf. destruct (H1 23 F1 fuel ltac:(lia)) as [R [O _]].
+    - intros fuel Hf. pose proof (Nat.le_trans _ _ _ C1 Hf) as Hc.
+      destruct (H1 23 F1 fuel Hc) as [R [O _]].
       split; [exact R | apply O; reflexivity].
   Qed.
 
